@@ -39,6 +39,11 @@ type c19World struct {
 	b2Want    []bool
 	batchWant []bool
 	pkBytes   [][]byte // encodings of pks, taken before the storm objects were created
+	// long lists for VerifyBLSSignatureManyMessages (more pairing couples than one internal batch holds), in
+	// several windows and both groupings: [window][0] = distinct message per key, [window][1] = 7 messages
+	longPks   []crypto.PublicKey
+	longMsgs  [][]byte
+	longSig   [][2][]byte
 	ecSks     [2]crypto.PrivateKey
 	ecSigs    [2][][]byte
 	bad       []byte
@@ -105,6 +110,32 @@ func newC19World(r *rand.Rand) *c19World {
 	}
 	w.manySig, _ = crypto.AggregateBLSSignatures(l)
 	w.bad = ref.EncodeG1(ref.E1.Mul(ref.G1Gen, randScalar(r)))
+	{
+		const nLong, win = 22, 17
+		var lsks []crypto.PrivateKey
+		for k := 0; k < nLong; k++ {
+			sk := skFromInt(randScalar(r))
+			lsks = append(lsks, sk)
+			w.longPks = append(w.longPks, sk.PublicKey())
+			w.longMsgs = append(w.longMsgs, mon.RandBytes(r, 5+k))
+		}
+		for v := 0; v+win <= nLong; v++ {
+			var pair [2][]byte
+			for kind := 0; kind < 2; kind++ {
+				var l []crypto.Signature
+				for k := v; k < v+win; k++ {
+					mi := k
+					if kind == 1 {
+						mi = k % 7
+					}
+					sg, _ := lsks[k].Sign(w.longMsgs[mi], w.xof)
+					l = append(l, sg)
+				}
+				pair[kind], _ = crypto.AggregateBLSSignatures(l)
+			}
+			w.longSig = append(w.longSig, pair)
+		}
+	}
 	for k := range w.sks {
 		s := w.sigs[k][0]
 		ok := true
@@ -185,7 +216,7 @@ func (w *c19World) fingerprint(after bool) string {
 	return fmt.Sprintf("%x", h.Sum(nil))
 }
 
-var c19Ops = []string{"kmac.ComputeHash", "bls.Sign", "bls.Verify", "BLSVerifyPOP", "SPOCKVerify", "VerifyOneMessage", "VerifyManyMessages", "BatchVerify", "ecdsa.Sign", "ecdsa.Verify", "BatchVerify-with-rejected-entries", "rejected-calls"}
+var c19Ops = []string{"kmac.ComputeHash", "bls.Sign", "bls.Verify", "BLSVerifyPOP", "SPOCKVerify", "VerifyOneMessage", "VerifyManyMessages", "BatchVerify", "ecdsa.Sign", "ecdsa.Verify", "BatchVerify-with-rejected-entries", "rejected-calls", "VerifyManyMessages-long"}
 
 func (w *c19World) doOp(run *mon.Run, r *rand.Rand, op int, local [2]hash.Hasher) string {
 	mi := r.IntN(len(w.msgs))
@@ -331,6 +362,28 @@ func (w *c19World) doOp(run *mon.Run, r *rand.Rand, op int, local [2]hash.Hasher
 		ok, err := w.ecSks[ci].PublicKey().Verify(s, m, local[ci])
 		if err != nil || !ok {
 			return fmt.Sprintf("signature made by a concurrent ECDSA Sign does not verify (%v,%v)", ok, err)
+		}
+	case 12:
+		const win = 17
+		v, kind := r.IntN(len(w.longSig)), r.IntN(2)
+		var pks []crypto.PublicKey
+		var ms [][]byte
+		var hs []hash.Hasher
+		for kk := v; kk < v+win; kk++ {
+			idx := kk
+			if kind == 1 {
+				idx = kk % 7
+			}
+			pks, ms, hs = append(pks, w.longPks[kk]), append(ms, w.longMsgs[idx]), append(hs, w.xof)
+		}
+		good := r.IntN(3) != 0
+		sig := w.longSig[v][kind]
+		if !good {
+			sig = w.longSig[(v+1)%len(w.longSig)][kind]
+		}
+		ok, err := crypto.VerifyBLSSignatureManyMessages(pks, sig, ms, hs)
+		if err != nil || ok != good {
+			return fmt.Sprintf("concurrent VerifyBLSSignatureManyMessages over %d pairs (window %d, grouping %d) = (%v,%v), alone it returns %v", win, v, kind, ok, err, good)
 		}
 	case 9:
 		ci := r.IntN(2)
